@@ -285,16 +285,16 @@ func wantTrunc(ev *event) bool {
 // stable: the property demands the data to be unaffected by later reads in this mode.
 func checkPacket(o obs, ev *event, mode string, stable bool) {
 	if !bytes.Equal(o.now, ev.data) {
-		lib.Finding("C16", "psrc:data:"+mode, fmt.Sprintf("packet tag %d delivered with data %s, read was %s", ev.tag, lib.Hex(o.now), lib.Hex(ev.data)))
+		finding("C16", "psrc:data:"+mode, fmt.Sprintf("packet tag %d delivered with data %s, read was %s", ev.tag, lib.Hex(o.now), lib.Hex(ev.data)))
 	}
 	if stable && !bytes.Equal(o.pkt.Data(), ev.data) {
-		lib.Finding("C16", "psrc:overwrite:"+mode, fmt.Sprintf("packet tag %d (data %s) reads %s after later reads of the data source", ev.tag, lib.Hex(ev.data), lib.Hex(o.pkt.Data())))
+		finding("C16", "psrc:overwrite:"+mode, fmt.Sprintf("packet tag %d (data %s) reads %s after later reads of the data source", ev.tag, lib.Hex(ev.data), lib.Hex(o.pkt.Data())))
 	}
 	if o.caplen != ev.caplen || o.length != ev.length || o.tag != ev.tag {
-		lib.Finding("C16", "psrc:meta", fmt.Sprintf("capture info of packet tag %d: got caplen=%d len=%d tag=%d", ev.tag, o.caplen, o.length, o.tag))
+		finding("C16", "psrc:meta", fmt.Sprintf("capture info of packet tag %d: got caplen=%d len=%d tag=%d", ev.tag, o.caplen, o.length, o.tag))
 	}
 	if o.trunc != wantTrunc(ev) {
-		lib.Finding("C16", "psrc:truncated", fmt.Sprintf("packet tag %d caplen=%d len=%d data=%s: Truncated=%v", ev.tag, ev.caplen, ev.length, lib.Hex(ev.data), o.trunc))
+		finding("C16", "psrc:truncated", fmt.Sprintf("packet tag %d caplen=%d len=%d data=%s: Truncated=%v", ev.tag, ev.caplen, ev.length, lib.Hex(ev.data), o.trunc))
 	}
 }
 
@@ -434,13 +434,49 @@ func doConcat(optS string, n int, hs [][]*event) string {
 
 // ---------------------------------------------------------------- channel interface
 
-var hangs int
+var (
+	hangs     int
+	patience  = 1 // multiplier of the watchdog (raised for the isolated re-run of a hang)
+	deferring bool
+	pending   [][3]string
+)
+
+// finding reports a violation; while a channel op is running it is held back until the op's
+// verdict is final (a watchdog expiry is re-run once in isolation before it counts, DESIGN §8.4).
+func finding(prop, sig, what string) {
+	if deferring {
+		pending = append(pending, [3]string{prop, sig, what})
+		return
+	}
+	lib.Finding(prop, sig, what)
+}
 
 func watchdog() time.Duration {
 	if hangs > 20 {
 		return 30 * time.Millisecond
 	}
-	return 1500 * time.Millisecond
+	return time.Duration(patience) * 1500 * time.Millisecond
+}
+
+func doChan(zero bool, optS, consumer, cancelS string, evs []*event) string {
+	deferring, pending, patience = true, nil, 1
+	r, byConstruction := doChanOnce(zero, optS, consumer, cancelS, evs)
+	if r == "hang" && !byConstruction {
+		lib.Stat("chan:hang-rerun")
+		time.Sleep(20 * time.Millisecond)
+		pending, patience = nil, 3
+		r, _ = doChanOnce(zero, optS, consumer, cancelS, evs)
+		patience = 1
+	}
+	if r == "hang" {
+		hangs++
+	}
+	deferring = false
+	for _, f := range pending {
+		lib.Finding(f[0], f[1], f[2])
+	}
+	pending = nil
+	return r
 }
 
 func waitGoroutines(baseline int, d time.Duration) bool {
@@ -456,10 +492,10 @@ func waitGoroutines(baseline int, d time.Duration) bool {
 	}
 }
 
-func doChan(zero bool, optS, consumer, cancelS string, evs []*event) string {
+func doChanOnce(zero bool, optS, consumer, cancelS string, evs []*event) (string, bool) {
 	opts, nocopy, ok := parseOpts(optS)
 	if !ok {
-		return "bad-op"
+		return "bad-op", false
 	}
 	lag := -1 // -1: stalled, 0: fast, k: stays k packets behind
 	switch {
@@ -469,11 +505,11 @@ func doChan(zero bool, optS, consumer, cancelS string, evs []*event) string {
 	case strings.HasPrefix(consumer, "g"):
 		k, ok := lib.Atoi(consumer[1:])
 		if !ok || k < 1 || k > 100000 {
-			return "bad-op"
+			return "bad-op", false
 		}
 		lag = k
 	default:
-		return "bad-op"
+		return "bad-op", false
 	}
 	cancelAt, pre := -1, false
 	switch {
@@ -483,11 +519,11 @@ func doChan(zero bool, optS, consumer, cancelS string, evs []*event) string {
 	case strings.HasPrefix(cancelS, "r"):
 		i, ok := lib.Atoi(cancelS[1:])
 		if !ok || i < 0 {
-			return "bad-op"
+			return "bad-op", false
 		}
 		cancelAt = i
 	default:
-		return "bad-op"
+		return "bad-op", false
 	}
 	mode := fmt.Sprintf("chan-zc%s-nocopy%s", b01(zero), b01(nocopy))
 
@@ -505,12 +541,12 @@ func doChan(zero bool, optS, consumer, cancelS string, evs []*event) string {
 		_ = r
 		lib.Stat("chan:refused")
 		if !(zero && nocopy) {
-			lib.Finding("C16", "psrc:refused:"+mode, "PacketsCtx refused a combination the property allows")
+			finding("C16", "psrc:refused:"+mode, "PacketsCtx refused a combination the property allows")
 		}
-		return "refused"
+		return "refused", false
 	}
 	if zero && nocopy {
-		lib.Finding("C16", "psrc:zerocopy-nocopy-not-refused", "zero-copy data source + NoCopy on the channel interface was not refused")
+		finding("C16", "psrc:zerocopy-nocopy-not-refused", "zero-copy data source + NoCopy on the channel interface was not refused")
 	}
 	same := ps.Packets() == ch
 
@@ -628,7 +664,7 @@ phase1:
 			case <-tick.C:
 				if time.Now().After(deadline) {
 					hang = true
-					lib.Finding("C16", "psrc:cancel-stuck", "producer goroutine did not exit after the context was cancelled (consumer not receiving)")
+					finding("C16", "psrc:cancel-stuck", "producer goroutine did not exit after the context was cancelled (consumer not receiving)")
 				}
 			}
 		}
@@ -660,13 +696,13 @@ phase1:
 		}
 	}
 	if hang {
-		hangs++
 		lib.Stat("chan:hang")
 		// is it a deadlock by construction of the script (stalled consumer, full channel, no cancel)?
-		if !(len(ch) == cap(ch) && !cancelled) {
-			lib.Finding("C16", "psrc:not-closed", "channel not closed / producer stuck although the data source ended or the context was cancelled")
+		byConstruction := len(ch) == cap(ch) && !cancelled
+		if !byConstruction {
+			finding("C16", "psrc:not-closed", "channel not closed / producer stuck although the data source ended or the context was cancelled")
 		}
-		return "hang"
+		return "hang", byConstruction
 	}
 	leak := !waitGoroutines(baseline, 300*time.Millisecond)
 
@@ -682,15 +718,15 @@ phase1:
 	for _, o := range got {
 		k, ok := idx[o.tag]
 		if !ok {
-			lib.Finding("C16", "psrc:meta", "received a packet whose capture info matches no read")
+			finding("C16", "psrc:meta", "received a packet whose capture info matches no read")
 			continue
 		}
 		if seen[k] {
-			lib.Finding("C16", "psrc:dup", fmt.Sprintf("packet tag %d received twice", o.tag))
+			finding("C16", "psrc:dup", fmt.Sprintf("packet tag %d received twice", o.tag))
 		}
 		seen[k] = true
 		if k < last {
-			lib.Finding("C16", "psrc:order", fmt.Sprintf("packet tag %d received after a later one", o.tag))
+			finding("C16", "psrc:order", fmt.Sprintf("packet tag %d received after a later one", o.tag))
 		}
 		if k > last {
 			last = k
@@ -718,31 +754,31 @@ phase1:
 		if !cancelled {
 			for k := range before {
 				if !seen[k] {
-					lib.Finding("C16", "psrc:loss", fmt.Sprintf("packet tag %d read before end of input was never delivered", before[k].tag))
+					finding("C16", "psrc:loss", fmt.Sprintf("packet tag %d read before end of input was never delivered", before[k].tag))
 				}
 			}
 			if len(got) > len(before) {
-				lib.Finding("C16", "psrc:past-eof", "packets delivered that were read after the terminal error")
+				finding("C16", "psrc:past-eof", "packets delivered that were read after the terminal error")
 			}
 		} else if cancelAt >= 0 {
 			for k := 0; k < detCount && k < len(pk); k++ {
 				if !seen[k] {
-					lib.Finding("C16", "psrc:loss", fmt.Sprintf("packet tag %d sent before cancellation was never delivered", pk[k].tag))
+					finding("C16", "psrc:loss", fmt.Sprintf("packet tag %d sent before cancellation was never delivered", pk[k].tag))
 				}
 			}
 			if len(got) > detCount+1 {
-				lib.Finding("C16", "psrc:read-after-cancel", "more than one packet delivered after cancellation")
+				finding("C16", "psrc:read-after-cancel", "more than one packet delivered after cancellation")
 			}
 		}
 	}
 	if cancelled && (extraReads > 0 || (cancelAt >= 0 && reads > cancelAt+1) || (pre && reads > 0)) {
-		lib.Finding("C16", "psrc:read-after-cancel", fmt.Sprintf("the producer started %d data-source read(s) after the context was cancelled", reads))
+		finding("C16", "psrc:read-after-cancel", fmt.Sprintf("the producer started %d data-source read(s) after the context was cancelled", reads))
 	}
 	if leak {
-		lib.Finding("C16", "psrc:leak", "producer goroutine still alive after the channel was closed")
+		finding("C16", "psrc:leak", "producer goroutine still alive after the channel was closed")
 	}
 	if !same {
-		lib.Finding("C16", "psrc:second-channel", "second Packets() call returned a different channel")
+		finding("C16", "psrc:second-channel", "second Packets() call returned a different channel")
 	}
 
 	// ---- stats ----
@@ -794,7 +830,7 @@ phase1:
 		fmt.Fprintf(&sb, "%s:%d:%d:%d:%s", lib.Hex(o.pkt.Data()), o.caplen, o.length, o.tag, b01(o.trunc))
 	}
 	fmt.Fprintf(&sb, " closed=%s leak=%s reads=%d same=%s race=%s", b01(closed), b01(leak), reads, b01(same), b01(race))
-	return sb.String()
+	return sb.String(), false
 }
 
 // ---------------------------------------------------------------- exec
